@@ -234,7 +234,7 @@ theorem findFirst_nil (s : BSt) : cleanupContexts.go.findFirst s [] = (s, none) 
 theorem findFirst_cons (s : BSt) (i : Nat) (rest : List Nat) :
     cleanupContexts.go.findFirst s (i :: rest) =
       if (s.th i).valid then cleanupContexts.go.findFirst s rest
-      else if (ctxEmpty s i).2 then ((ctxEmpty s i).1, some i)
+      else if (ctxEmpty s i).2 && (!s.cfg.cleanupKeepsUnreported || (s.th i).fail == 0) then ((ctxEmpty s i).1, some i)
       else cleanupContexts.go.findFirst (ctxEmpty s i).1 rest := rfl
 
 /-- a registered context dropped by the clean-up -/
